@@ -2,6 +2,7 @@ package main
 
 import (
 	"fmt"
+	"os"
 	"go/constant"
 	"go/types"
 	"strings"
@@ -18,6 +19,8 @@ type SpecEnv struct {
 	pkg       *types.Package
 	depth     int
 	entryVars map[string]Val // parameter entry values, used under old()
+	localsAfterVars bool     // explicit vars (params, results) win over same-named locals
+	freePtrs  map[string]Val // captured variables: name -> pointer to the variable's cell
 }
 
 func (env *SpecEnv) with(name string, v Val) *SpecEnv {
@@ -70,7 +73,10 @@ func (u *Unit) contractEnvFn(fn *ssa.Function, params []Val, bind []Val, results
 	}
 	for i, fv := range fn.FreeVars {
 		if i < len(bind) {
-			env.vars[fv.Name()] = bind[i]
+			if env.freePtrs == nil {
+				env.freePtrs = map[string]Val{}
+			}
+			env.freePtrs[fv.Name()] = bind[i]
 		}
 	}
 	if results != nil {
@@ -320,6 +326,9 @@ func (u *Unit) eval(st *State, env *SpecEnv, e *Spec) (Val, error) {
 		if v, ok := env.vars[e.Name]; ok {
 			return v, nil
 		}
+		if pv, ok := env.freePtrs[e.Name]; ok {
+			return u.specLoad(st, pv)
+		}
 		if env.useLocals && env.fr != nil {
 			if a := u.findLocal(env.fr, e.Name); a != nil {
 				if pv, ok := env.fr.regs[a]; ok {
@@ -335,7 +344,11 @@ func (u *Unit) eval(st *State, env *SpecEnv, e *Spec) (Val, error) {
 			}
 		}
 		if gs, ok := u.eng.ghostVars[e.Name]; ok {
-			return Val{T: tInt, Terms: []Term{u.heapGet(st, "G_"+e.Name, gs)}}, nil
+			t := types.Type(tInt)
+			if gs == "Bool" {
+				t = tBool
+			}
+			return Val{T: t, Terms: []Term{u.heapGet(st, "G_"+e.Name, gs)}}, nil
 		}
 		if env.pkg != nil {
 			if o := env.pkg.Scope().Lookup(e.Name); o != nil {
@@ -413,6 +426,19 @@ func (u *Unit) eval(st *State, env *SpecEnv, e *Spec) (Val, error) {
 				return Val{}, err
 			}
 			guard = fmt.Sprintf("(and (<= %s %s) (< %s %s))", lo, "$V", "$V", hi)
+		} else if strings.ContainsAny(e.TypeName, "*.") {
+			te, perr := ParseSpec(e.TypeName)
+			if perr != nil {
+				return Val{}, perr
+			}
+			rt, rerr := u.resolveType(env, te)
+			if rerr != nil {
+				return Val{}, rerr
+			}
+			bt = rt
+			if !pointerLike(rt) {
+				return Val{}, fmt.Errorf("quantification over non-reference type %s", e.TypeName)
+			}
 		} else {
 			sort, bt, _ = sortOfTypeName(e.TypeName)
 			if bt == nil {
@@ -686,6 +712,54 @@ func (u *Unit) evalCall(st *State, env *SpecEnv, e *Spec) (Val, error) {
 		}
 		comp := map[string]string{"sent": "C_sent", "recvd": "C_recvd", "chancap": "C_cap"}[e.Name]
 		return intVal(fmt.Sprintf("(select %s %s)", u.heapGet(st, comp, "(Array Int Int)"), as[0].Terms[0])), nil
+	case "closureof":
+		// closureof(f, Name): Go-side knowledge that f is (a closure of) the named function
+		if len(e.Args) != 2 {
+			return Val{}, fmt.Errorf("closureof(f, Name)")
+		}
+		f, err := u.eval(st, env, e.Args[0])
+		if err != nil {
+			return Val{}, err
+		}
+		want := e.Args[1].String()
+		if os.Getenv("GOVC_DEBUG") != "" {
+			fmt.Fprintf(os.Stderr, "closureof: arg=%s fn=%v want=%s\n", e.Args[0], f.Fn, want)
+		}
+		if f.Fn != nil && (relName(f.Fn.Fn) == want || strings.HasSuffix(fnKey(f.Fn.Fn), want)) {
+			return boolVal("true"), nil
+		}
+		return boolVal("false"), nil
+	case "fromglobal":
+		// fromglobal(x, pkg.Var): x was produced by reading the named package-level variable
+		if len(e.Args) != 2 {
+			return Val{}, fmt.Errorf("fromglobal(x, pkg.Var)")
+		}
+		x, err := u.eval(st, env, e.Args[0])
+		if err != nil {
+			return Val{}, err
+		}
+		g := x.Global
+		if g == nil && x.Inner != nil {
+			g = x.Inner.Global
+		}
+		want := e.Args[1].String()
+		if g != nil && (g.Pkg.Pkg.Name()+"."+g.Name() == want) {
+			return boolVal("true"), nil
+		}
+		return boolVal("false"), nil
+	case "lastsent":
+		as, err := args()
+		if err != nil {
+			return Val{}, err
+		}
+		return u.lastSent(st, as[0])
+	case "hist":
+		// hist(ch, k): the k-th message received from ch (ghost history)
+		as, err := args()
+		if err != nil {
+			return Val{}, err
+		}
+		return u.histVal(as[0], as[1].Terms[0])
 	case "fresh":
 		as, err := args()
 		if err != nil {
@@ -695,7 +769,7 @@ func (u *Unit) evalCall(st *State, env *SpecEnv, e *Spec) (Val, error) {
 		if env.old != nil {
 			old = env.old.alloc
 		}
-		return boolVal(fmt.Sprintf("(> %s %s)", as[0].Terms[0], old)), nil
+		return boolVal(fmt.Sprintf("(> %s %s)", objRef(as[0]), old)), nil
 	case "istype":
 		if len(e.Args) != 2 {
 			return Val{}, fmt.Errorf("istype(x, T)")
@@ -779,6 +853,17 @@ func (u *Unit) evalCall(st *State, env *SpecEnv, e *Spec) (Val, error) {
 		}
 		return u.eval(st, ne, sf.Body)
 	}
+	if gs, ok := u.eng.cs.GhostFields[e.Name]; ok && len(e.Args) == 1 {
+		a, err := u.eval(st, env, e.Args[0])
+		if err != nil {
+			return Val{}, err
+		}
+		t := types.Type(tInt)
+		if gs == "Bool" {
+			t = tBool
+		}
+		return Val{T: t, Terms: []Term{fmt.Sprintf("(select %s %s)", u.heapGet(st, "GF_"+e.Name, "(Array Int "+gs+")"), objRef(a))}}, nil
+	}
 	// ghost (uninterpreted) function
 	if gf, ok := u.eng.cs.Ghosts[e.Name]; ok {
 		as, err := args()
@@ -817,4 +902,103 @@ func (u *Unit) lookupSpec(env *SpecEnv, name string) *SpecFunc {
 		return sf
 	}
 	return nil
+}
+
+// assumeClause assumes a contract clause and harvests its positive universally
+// quantified parts for explicit instantiation.
+func (u *Unit) assumeClause(st *State, env *SpecEnv, e *Spec) error {
+	t, err := u.evalBool(st, env, e)
+	if err != nil {
+		return err
+	}
+	st.assume(t)
+	u.harvest(st, env, e, "true", 0)
+	return nil
+}
+
+func (u *Unit) harvest(st *State, env *SpecEnv, e *Spec, ante Term, depth int) {
+	if depth > 12 || e == nil {
+		return
+	}
+	switch e.Kind {
+	case SBinary:
+		switch e.Op {
+		case "&&":
+			u.harvest(st, env, e.A, ante, depth+1)
+			u.harvest(st, env, e.B, ante, depth+1)
+		case "==>":
+			a, err := u.evalBool(st, env, e.A)
+			if err != nil {
+				return
+			}
+			u.harvest(st, env, e.B, sAnd(ante, a), depth+1)
+		}
+	case SQuant:
+		if e.Op != "forall" || e.B == nil {
+			return
+		}
+		lo, err1 := u.evalInt(st, env, e.B)
+		hi, err2 := u.evalInt(st, env, e.C)
+		if err1 != nil || err2 != nil {
+			return
+		}
+		u.freshN++
+		bv := fmt.Sprintf("qi_%s!%d$", mangle(e.Name), u.freshN)
+		body, err := u.evalBool(st, env.with(e.Name, Val{T: tInt, Terms: []Term{bv}}), e.A)
+		if err != nil {
+			return
+		}
+		impl := sImp(fmt.Sprintf("(and (<= %s %s) (< %s %s))", lo, bv, bv, hi), body)
+		st.qfacts = append(append([]qfact(nil), st.qfacts...), qfact{ante: ante, bv: bv, impl: impl})
+	case SCall:
+		if e.A != nil {
+			return
+		}
+		if sf := u.lookupSpec(env, e.Name); sf != nil && len(sf.Params) == len(e.Args) {
+			ne := &SpecEnv{vars: map[string]Val{}, old: env.old, fn: env.fn, pkg: env.pkg, depth: env.depth + 1}
+			for i, p := range sf.Params {
+				v, err := u.eval(st, env, e.Args[i])
+				if err != nil {
+					return
+				}
+				ne.vars[p.Name] = v
+			}
+			u.harvest(st, ne, sf.Body, ante, depth+1)
+			return
+		}
+		if uf, ok := u.eng.cs.Unfolds[e.Name]; ok && len(uf.Params) == len(e.Args) {
+			ne := &SpecEnv{vars: map[string]Val{}, old: env.old, fn: env.fn, pkg: env.pkg, depth: env.depth + 1}
+			if p := u.eng.pkgByPath(uf.Pkg); p != nil {
+				ne.pkg = p
+			}
+			for i, p := range uf.Params {
+				v, err := u.eval(st, env, e.Args[i])
+				if err != nil {
+					return
+				}
+				// typed view of the argument
+				if te, perr := ParseSpec(p.Type); perr == nil {
+					if rt, rerr := u.resolveType(ne, te); rerr == nil {
+						v.T = rt
+						v.Ptr = nil
+					}
+				}
+				ne.vars[p.Name] = v
+			}
+			t, err := u.evalBool(st, ne, uf.Body)
+			if err != nil {
+				u.fail(fmt.Sprintf("%s: unfold %s: %v", uf.Where, uf.Name, err))
+				return
+			}
+			st.assume(sImp(ante, t))
+			u.harvest(st, ne, uf.Body, ante, depth+1)
+		}
+	}
+}
+
+// instantiate adds the instances of all harvested quantified facts at index term iv.
+func (u *Unit) instantiate(st *State, iv Term) {
+	for _, q := range st.qfacts {
+		st.assume(sImp(q.ante, strings.ReplaceAll(q.impl, q.bv, iv)))
+	}
 }
